@@ -169,11 +169,12 @@ def install(seed, max_steps=3000000, max_virtual=3000.0):
 
     def __init__(self, *a, **k):
         orig_init(self, *a, **k)
-        self._keep_order.role = 'keep_order'
-        self._exception_thrown.role = 'exception_thrown'
-        self._kill_signal_received.role = 'kill_signal_received'
-        self._worker_restart_condition.role = 'restart_condition'
-        self.exception_lock.role = 'exception_lock'
+        for _name, _role in (('_keep_order', 'keep_order'), ('_exception_thrown', 'exception_thrown'), ('_kill_signal_received', 'kill_signal_received'),
+                             ('_worker_restart_condition', 'restart_condition'), ('exception_lock', 'exception_lock')):
+            try:
+                getattr(self, _name).role = _role
+            except Exception:  # noqa
+                pass
 
     _saved.append((WC, '__init__', orig_init))
     WC.__init__ = __init__
@@ -181,8 +182,11 @@ def install(seed, max_steps=3000000, max_virtual=3000.0):
 
     def reinit_comms_for_worker(self, worker_id):
         orig_reinit(self, worker_id)
-        self._worker_running_task[worker_id].role = f'running_task[{worker_id}]'
-        self._worker_running_task[worker_id].get_lock().role = f'running_task_lock[{worker_id}]'
+        try:
+            self._worker_running_task[worker_id].role = f'running_task[{worker_id}]'
+            self._worker_running_task[worker_id].get_lock().role = f'running_task_lock[{worker_id}]'
+        except Exception:  # noqa
+            pass
 
     _saved.append((WC, 'reinit_comms_for_worker', orig_reinit))
     WC.reinit_comms_for_worker = reinit_comms_for_worker
@@ -234,21 +238,55 @@ def first_job_id():
 
 
 def tag_comms(c):
-    for i, q in enumerate(c._task_queues):
-        q.role = f'tq[{i}]'
-    for i, v in enumerate(c._worker_running_task):
-        v.role = f'running_task[{i}]'
-        v.get_lock().role = f'running_task_lock[{i}]'
-    c._worker_working_on_job.role = 'working_on_job'
-    c._results_queue.role = 'rq'
-    c._results_received.role = 'results_received'
-    c._worker_restart_array.role = 'restart_array'
-    c._workers_dead.role = 'workers_dead'
-    c._workers_time_task_started.role = 'time_task_started'
-    c._exception_job_id.role = 'exception_job_id'
-    c._tasks_completed_array.role = 'tasks_completed'
-    c._progress_bar_shutdown.role = 'pb_shutdown'
-    c._progress_bar_complete.role = 'pb_complete'
+    """names the comms objects so that traces carry roles.  Queues are recognised by what they are (the list of joinable queues =
+    the per-worker task queues, the single one = the results queue); the other objects by the private attribute that holds them,
+    matched by its exact name or, failing that, by a distinctive part of it.  An object that cannot be found keeps no role: the
+    trace-based ties then report a broken correspondence (and `roles_missing` says which), but the run itself is not disturbed."""
+    missing = []
+    d = dict(vars(c))
+
+    def tag(x, role):
+        try:
+            x.role = role
+            return True
+        except Exception:  # noqa
+            return False
+    # queues, structurally
+    qlists = [v for v in d.values() if isinstance(v, list) and v and all(isinstance(q, sim.JoinableQueue) for q in v)]
+    if qlists:
+        for i, q in enumerate(qlists[0]):
+            tag(q, 'tq[%d]' % i)
+    else:
+        missing.append('task queues')
+    singles = [v for v in d.values() if isinstance(v, sim.JoinableQueue)]
+    if singles:
+        tag(singles[0], 'rq')
+    else:
+        missing.append('results queue')
+    wanted = (('_worker_running_task', 'running_task', ('running_task',)), ('_worker_working_on_job', 'working_on_job', ('working_on',)),
+              ('_results_received', 'results_received', ('results_received',)), ('_worker_restart_array', 'restart_array', ('restart_array', 'restarts')),
+              ('_workers_dead', 'workers_dead', ('dead',)), ('_workers_time_task_started', 'time_task_started', ('time_task', 'task_started')),
+              ('_exception_job_id', 'exception_job_id', ('exception_job',)), ('_tasks_completed_array', 'tasks_completed', ('tasks_completed',)),
+              ('_progress_bar_shutdown', 'pb_shutdown', ('bar_shutdown',)), ('_progress_bar_complete', 'pb_complete', ('bar_complete',)))
+    for name, role, hints in wanted:
+        obj = d.get(name)
+        if obj is None:
+            cands = [v for k, v in d.items() if any(h in k for h in hints)]
+            obj = cands[0] if len(cands) == 1 else None
+        if obj is None:
+            missing.append(role)
+            continue
+        if role == 'running_task':
+            try:
+                for i, v in enumerate(obj):
+                    v.role = f'running_task[{i}]'
+                    v.get_lock().role = f'running_task_lock[{i}]'
+            except Exception:  # noqa
+                missing.append(role)
+        else:
+            tag(obj, role)
+    if sim.S is not None:
+        sim.S.roles_missing = missing
 
 
 def uninstall():
